@@ -324,13 +324,14 @@ class Parser:
         self.process_statement()
 
     def process_statement(self) -> None:
-        if not self.set_line and self.statement:
+        if self.statement and (not self.set_line or self.new_statement):
+            # (a SET line that closes a statement without ';' does not hold it back)
             if self.statement.endswith(";"):
                 # a one-line statement that followed a statement without ';' is
                 # parsed when the input ends: its terminator is still attached
                 self.statement = self.statement[:-1]
             self.parse_statement()
-        if self.new_statement:
+        if self.new_statement and not self.set_was_in_line:
             self.statement = self.line
         else:
             self.statement = None
